@@ -303,7 +303,9 @@ def access_histories(ctx):
                  "over every reachable state and refutes each of three deviations (no cache, remembered failure, fall-back to the "
                  "other file name); every history of ComposeAccessGen.tla (exhaustive per pair of kinds, random deep over all four) is "
                  "replayed on a real Compose over a real directory in the three layouts, comparing after every access the document "
-                 "served, the object's identity, the caller's latest edit and the RuntimeError text")
+                 "served, the object's identity, the caller's latest edit and the RuntimeError text; code -> spec: seeded random executions of the "
+                 "real object (30-40 steps, all kinds, ten ways of being undecodable) are logged and validated by TLC against "
+                 "Trace_ComposeAccess.tla, the action properties evaluated on every recorded step")
     base = open(os.path.join(core.SPEC_DIR, "MC_ComposeAccess.cfg")).read().replace("MaxFresh = 2", "MaxFresh = %d" % (1 if ctx.quick else 2))
     ctx.require_ok(ctx.tlc("MC_ComposeAccess", cfg_text=base, must_cover=["Access", "Edit", "FileSet", "Decoy"], timeout=3000))
     for dev, prop in (("Dev_NoCache", "LoadedOnce"), ("Dev_CacheFailure", "FirstAccessIsDirectLoad"), ("Dev_Fallback", "FirstAccessIsDirectLoad")):
@@ -320,9 +322,15 @@ def access_histories(ctx):
     ctx.notes["access_histories"] = len(cases)
     ctx.exhaustive = False
     ctx.evaluate(CA.evaluate, cases, label="access", chunk=100)
+    # code -> spec: random executions of the real object, logged and validated by TLC against Trace_ComposeAccess.tla
+    from . import compose_access_traces as CT
+    CT.validate(ctx, pref, 200 if ctx.quick else 4000, 30 if ctx.quick else 40)
 
 
 def replay(info):
+    if info["case"].get("kind") == "access-trace":
+        from . import compose_access_traces as CT
+        return CT.replay(info)
     if "hist" in info["case"]:
         from . import compose_access as CA
         return CA.evaluate(info["case"])
